@@ -15,6 +15,9 @@ import (
 	"io"
 	"strconv"
 	"strings"
+	"sync"
+	"sync/atomic"
+	"time"
 
 	"github.com/lni/dragonboat/v4/config"
 	pb "github.com/lni/dragonboat/v4/raftpb"
@@ -27,6 +30,47 @@ import (
 type applyRec struct {
 	calls [][2]uint64
 	init  uint64
+	plain bool
+	// RACE: the next Update dwells; what is inside the user state machine is tracked
+	dwellOnce    int32
+	updEntered   chan struct{}
+	inUpdate     int32
+	inOther      int32 // Lookup / NALookup / SaveSnapshot (plain) or PrepareSnapshot (all kinds) in progress
+	raceOverlaps []string
+	mu           sync.Mutex
+}
+
+func (a *applyRec) overlap(msg string) {
+	a.mu.Lock()
+	a.raceOverlaps = append(a.raceOverlaps, msg)
+	a.mu.Unlock()
+}
+
+func (a *applyRec) updBegin() {
+	atomic.AddInt32(&a.inUpdate, 1)
+	if atomic.LoadInt32(&a.inOther) > 0 {
+		a.overlap("Update entered while an excluded method is in progress")
+	}
+	if atomic.CompareAndSwapInt32(&a.dwellOnce, 1, 0) {
+		select {
+		case a.updEntered <- struct{}{}:
+		default:
+		}
+		time.Sleep(40 * time.Millisecond)
+	}
+}
+func (a *applyRec) updEnd() { atomic.AddInt32(&a.inUpdate, -1) }
+
+// other: a method that must not run beside Update (when excl)
+func (a *applyRec) other(name string, excl bool) func() {
+	if !excl {
+		return func() {}
+	}
+	atomic.AddInt32(&a.inOther, 1)
+	if atomic.LoadInt32(&a.inUpdate) > 0 {
+		a.overlap(name + " overlaps Update")
+	}
+	return func() { atomic.AddInt32(&a.inOther, -1) }
 }
 
 func (a *applyRec) add(es []sm.Entry) {
@@ -38,11 +82,21 @@ func (a *applyRec) add(es []sm.Entry) {
 type aPlain struct{ *applyRec }
 
 func (s aPlain) Update(e sm.Entry) (sm.Result, error) {
+	s.updBegin()
+	defer s.updEnd()
 	s.add([]sm.Entry{e})
 	return sm.Result{Value: e.Index}, nil
 }
-func (s aPlain) Lookup(interface{}) (interface{}, error) { return nil, nil }
+func (s aPlain) Lookup(interface{}) (interface{}, error) {
+	defer s.other("Lookup", true)()
+	return nil, nil
+}
+func (s aPlain) NALookup([]byte) ([]byte, error) {
+	defer s.other("NALookup", true)()
+	return nil, nil
+}
 func (s aPlain) SaveSnapshot(io.Writer, sm.ISnapshotFileCollection, <-chan struct{}) error {
+	defer s.other("SaveSnapshot", true)()
 	return nil
 }
 func (s aPlain) RecoverFromSnapshot(io.Reader, []sm.SnapshotFile, <-chan struct{}) error { return nil }
@@ -51,6 +105,8 @@ func (s aPlain) Close() error                                                   
 type aConc struct{ *applyRec }
 
 func (s aConc) Update(es []sm.Entry) ([]sm.Entry, error) {
+	s.updBegin()
+	defer s.updEnd()
 	s.add(es)
 	for i := range es {
 		es[i].Result = sm.Result{Value: es[i].Index}
@@ -58,7 +114,10 @@ func (s aConc) Update(es []sm.Entry) ([]sm.Entry, error) {
 	return es, nil
 }
 func (s aConc) Lookup(interface{}) (interface{}, error)  { return nil, nil }
-func (s aConc) PrepareSnapshot() (interface{}, error)    { return nil, nil }
+func (s aConc) PrepareSnapshot() (interface{}, error) {
+	defer s.other("PrepareSnapshot", true)()
+	return nil, nil
+}
 func (s aConc) SaveSnapshot(interface{}, io.Writer, sm.ISnapshotFileCollection, <-chan struct{}) error {
 	return nil
 }
@@ -69,6 +128,8 @@ type aDisk struct{ *applyRec }
 
 func (s aDisk) Open(<-chan struct{}) (uint64, error) { return s.init, nil }
 func (s aDisk) Update(es []sm.Entry) ([]sm.Entry, error) {
+	s.updBegin()
+	defer s.updEnd()
 	s.add(es)
 	for i := range es {
 		es[i].Result = sm.Result{Value: es[i].Index}
@@ -77,7 +138,10 @@ func (s aDisk) Update(es []sm.Entry) ([]sm.Entry, error) {
 }
 func (s aDisk) Lookup(interface{}) (interface{}, error)                   { return nil, nil }
 func (s aDisk) Sync() error                                               { return nil }
-func (s aDisk) PrepareSnapshot() (interface{}, error)                     { return nil, nil }
+func (s aDisk) PrepareSnapshot() (interface{}, error) {
+	defer s.other("PrepareSnapshot", true)()
+	return nil, nil
+}
 func (s aDisk) SaveSnapshot(interface{}, io.Writer, <-chan struct{}) error { return nil }
 func (s aDisk) RecoverFromSnapshot(io.Reader, <-chan struct{}) error      { return nil }
 func (s aDisk) Close() error                                              { return nil }
@@ -115,8 +179,11 @@ func (s *aSnapshotter) Stream(_ hk.IStreamable, meta hk.SSMeta, _ pb.IChunkSink)
 	return nil
 }
 func (s *aSnapshotter) Shrunk(pb.Snapshot) (bool, error)                       { return false, nil }
-func (s *aSnapshotter) Save(hk.ISavable, hk.SSMeta) (pb.Snapshot, hk.SSEnv, error) {
-	return pb.Snapshot{}, hk.SSEnv{}, errors.New("unused")
+func (s *aSnapshotter) Save(savable hk.ISavable, meta hk.SSMeta) (pb.Snapshot, hk.SSEnv, error) {
+	if _, err := savable.Save(meta, io.Discard, meta.Session.Bytes(), nil); err != nil {
+		return pb.Snapshot{}, hk.SSEnv{}, err
+	}
+	return pb.Snapshot{Index: meta.Index, Term: meta.Term, Membership: meta.Membership}, hk.SSEnv{}, nil
 }
 func (s *aSnapshotter) Load(pb.Snapshot, hk.ILoadable, hk.IRecoverable) error { return nil }
 func (s *aSnapshotter) IsNoSnapshotError(err error) bool                      { return errors.Is(err, errNoSS) }
@@ -143,7 +210,7 @@ func runApplyCase(id string, hdr []string, ops []string, st *vh.Stats, line stri
 	kind := field(hdr, "kind", "plain")
 	init, _ := strconv.ParseUint(field(hdr, "init", "0"), 10, 64)
 	applied, _ := strconv.ParseUint(field(hdr, "applied", "0"), 10, 64)
-	rec := &applyRec{init: init}
+	rec := &applyRec{init: init, plain: kind == "plain", updEntered: make(chan struct{}, 4)}
 	cfg := config.Config{ShardID: 1, ReplicaID: 1}
 	stop := make(chan struct{})
 	var m hk.IManagedStateMachine
@@ -159,6 +226,7 @@ func runApplyCase(id string, hdr []string, ops []string, st *vh.Stats, line stri
 	s := hk.NewStateMachine(m, ss, cfg, &aNode{stop: stop}, hk.NewMemFS())
 	errc := 0
 	dropped := false
+	var races []uint64 // queue positions of the batches whose first Update is raced
 	p := vh.Catch(func() {
 		if kind == "disk" {
 			if _, err := s.OpenOnDiskStateMachine(); err != nil {
@@ -177,6 +245,9 @@ func runApplyCase(id string, hdr []string, ops []string, st *vh.Stats, line stri
 				continue
 			}
 			switch f[0] {
+			case "RACE":
+				races = append(races, s.TaskQ().Size())
+				fallthrough
 			case "T":
 				var ents []pb.Entry
 				if len(f) > 1 {
@@ -207,11 +278,58 @@ func runApplyCase(id string, hdr []string, ops []string, st *vh.Stats, line stri
 		}
 		batch := make([]hk.Task, 0, 8)
 		entries := make([]sm.Entry, 0, 8)
+		total := s.TaskQ().Size()
+		raceDone := map[uint64]bool{}
 		for guard := 0; guard < 10000; guard++ {
 			before := s.TaskQ().Size()
-			t, err := s.Handle(batch, entries)
+			raced := false
+			for _, pos := range races {
+				if pos >= total-before && !raceDone[pos] {
+					raced = true // the first Update of this Handle call is raced
+				}
+			}
+			var t hk.Task
+			var err error
+			if raced {
+				// Handle runs on its own goroutine (the apply worker); as soon as the user's Update
+				// has been entered (it dwells) a snapshot worker saves and clients read: every one
+				// of them has to wait for Update wherever the contract says so
+				atomic.StoreInt32(&rec.dwellOnce, 1)
+				hd := make(chan string, 1)
+				go func() {
+					hd <- vh.Catch(func() { t, err = s.Handle(batch, entries) })
+				}()
+				select {
+				case <-rec.updEntered:
+					var wg sync.WaitGroup
+					for _, f := range []func(){
+						func() { _, _, _ = s.Save(hk.SSRequest{}) },
+						func() { _, _ = s.Lookup("q") },
+						func() { _, _ = s.NALookup([]byte("q")) },
+					} {
+						wg.Add(1)
+						go func(f func()) { defer wg.Done(); _ = vh.Catch(f) }(f)
+					}
+					wg.Wait()
+					st.Count("apply-race-in-flight:true")
+				case p := <-hd:
+					hd <- p
+					st.Count("apply-race-in-flight:false")
+				}
+				if p := <-hd; p != "" {
+					panic(p)
+				}
+				atomic.StoreInt32(&rec.dwellOnce, 0)
+			} else {
+				t, err = s.Handle(batch, entries)
+			}
 			if err != nil {
 				panic(err)
+			}
+			for _, pos := range races {
+				if pos < total-s.TaskQ().Size() {
+					raceDone[pos] = true
+				}
 			}
 			if t.Recover {
 				ss.ss, ss.has = dummySS(t.Index), true
@@ -256,6 +374,9 @@ func runApplyCase(id string, hdr []string, ops []string, st *vh.Stats, line stri
 			st.Violation(id, fmt.Sprintf("streamed image labelled with index %d contains the state up to index %d: the receiver is handed entries %d..%d again", m[0], content, m[0]+1, content))
 		}
 	}
+	for _, o := range rec.raceOverlaps {
+		st.Violation(id, o+" ("+kind+" state machine, rsm level)")
+	}
 	if errc == 9 {
 		st.Violation(id, "unexpected panic of the apply path: "+p)
 	}
@@ -293,7 +414,7 @@ func genApplyCases(r *vh.Rand, w *vh.LineWriter, a vh.Args) {
 	}
 	for c := 0; c < n; c++ {
 		kind := []string{"plain", "conc", "disk"}[r.Intn(3)]
-		applied := uint64(r.Intn(6))
+		applied := uint64(1 + r.Intn(6)) // >= 1: the membership comes with the initial snapshot record
 		if kind == "disk" && applied == 0 {
 			applied = 1 // the membership (needed by a stream's metadata) comes with the initial snapshot record
 		}
@@ -347,7 +468,11 @@ func genApplyCases(r *vh.Rand, w *vh.LineWriter, a vh.Args) {
 					idx++ // gap inside the batch
 				}
 			}
-			ops = append(ops, "T "+strings.Join(es, ","))
+			if r.Intn(6) == 0 {
+				ops = append(ops, "RACE "+strings.Join(es, ","))
+			} else {
+				ops = append(ops, "T "+strings.Join(es, ","))
+			}
 			if idx > next {
 				next = idx
 			}
